@@ -13,7 +13,11 @@ use std::io::Write;
 use std::process::{Command, Stdio};
 
 pub const ALPHABET: &[char] = &['(', ')', '"', ';', '|', '#', '\\', 'a', ' ', '\n'];
-pub const BIN: &str = "/verif/target/repo-bin/debug/ruschm";
+pub const DEFAULT_BIN: &str = "/verif/target/repo-bin/debug/ruschm";
+/// the built ruschm binary (RUSCHM_BIN overrides the default: frozen copies for long runs)
+pub fn bin() -> String {
+    std::env::var("RUSCHM_BIN").unwrap_or_else(|_| DEFAULT_BIN.to_string())
+}
 
 /// reference completeness: every list opened by the text is closed; parentheses inside strings,
 /// |symbols|, #\c characters and comments do not count
@@ -192,7 +196,7 @@ fn strip_locations(s: &str) -> String {
 }
 
 pub fn binary_session(lines: &[&str]) -> Result<Transcript, String> {
-    let mut child = Command::new(BIN).stdin(Stdio::piped()).stdout(Stdio::piped()).stderr(Stdio::piped()).spawn().map_err(|e| format!("spawn {}: {}", BIN, e))?;
+    let mut child = Command::new(bin()).stdin(Stdio::piped()).stdout(Stdio::piped()).stderr(Stdio::piped()).spawn().map_err(|e| format!("spawn {}: {}", bin(), e))?;
     {
         let mut stdin = child.stdin.take().unwrap();
         let mut text = lines.join("\n");
@@ -237,8 +241,8 @@ pub fn split_sessions() -> Vec<Vec<String>> {
 }
 
 pub fn run(ctx: &Ctx) -> i32 {
-    if !std::path::Path::new(BIN).exists() {
-        eprintln!("MACHINERY-ERROR: {} not built", BIN);
+    if !std::path::Path::new(&bin()).exists() {
+        eprintln!("MACHINERY-ERROR: {} not built", bin());
         return 2;
     }
     // ---- (1) completeness predicate ----
